@@ -52,6 +52,15 @@ var ctxQuickShapes = map[string]bool{
 
 func buildCases(shapes []shape, thorough bool) (cases []caseSpec, notApplicable, prewarm, ctxExt int) {
 	for _, sh := range shapes {
+		if sh.Family == "hist" { // call history on one cached api.Function
+			for _, e := range engines {
+				for _, seq := range histSequences(thorough) {
+					c, m := histCaseFields(seq)
+					cases = append(cases, caseSpec{Shape: sh.ID, Engine: e, Cause: c, Moment: m, Hist: seq})
+				}
+			}
+			continue
+		}
 		if sh.Family == "conc" { // concurrency dimension: scenario x engine x cause x moment
 			for _, e := range engines {
 				for _, sc := range concScenarios {
@@ -123,6 +132,7 @@ func makePlan(thorough bool) *plan {
 		p.shapes = append(p.shapes, g...)
 	}
 	p.shapes = append(p.shapes, concShapes()...)
+	p.shapes = append(p.shapes, histShape())
 	for i := range p.shapes {
 		p.byID[p.shapes[i].ID] = &p.shapes[i]
 	}
@@ -131,6 +141,8 @@ func makePlan(thorough bool) *plan {
 		sh := p.byID[c.Shape]
 		// Scheduling hints only (no influence on verdicts).
 		switch {
+		case c.Hist != "":
+			p.phases["hist"] = append(p.phases["hist"], i)
 		case c.Conc != "":
 			// one worker per case: if the module is never closed every such case waits its 20 s bound (or
 			// hangs for the watchdog period) at the same time
@@ -149,6 +161,7 @@ func makePlan(thorough bool) *plan {
 	}
 	p.workers["main"] = 32 // mostly waiting (deadline cases block until their deadline has passed)
 	p.workers["deep"] = 6
+	p.workers["hist"] = 200 // milliseconds per case; many workers so that never-closed waits overlap if something is broken
 	p.workers["conc"] = len(p.phases["conc"])
 	if p.workers["conc"] > 500 {
 		p.workers["conc"] = 500
@@ -161,7 +174,7 @@ func makePlan(thorough bool) *plan {
 }
 
 // The tail phase runs alone; then deep and main run side by side.
-var phaseRounds = [][]string{{"tail"}, {"conc"}, {"deep", "main"}}
+var phaseRounds = [][]string{{"tail"}, {"conc"}, {"hist"}, {"deep", "main"}}
 
 var reMarker = regexp.MustCompile(`C07 (ARMED|CALLING|SELFHANG) i=(\d+) t=([0-9.]+)`)
 
@@ -217,6 +230,10 @@ func main() {
 		c := caseSpec{Shape: os.Args[2], Engine: os.Args[3], Cause: os.Args[4], Moment: m}
 		if len(os.Args) > 6 {
 			c.Conc = os.Args[6]
+		}
+		if c.Shape == "F-one-function-two-modes" { // probe F-one-function-two-modes <engine> <history>
+			c.Hist = os.Args[4]
+			c.Cause, c.Moment = histCaseFields(c.Hist)
 		}
 		sh := p.byID[c.Shape]
 		if sh == nil {
@@ -317,6 +334,9 @@ func main() {
 					if c.Conc != "" {
 						hsig += ":" + c.Conc
 					}
+					if c.Hist != "" {
+						hsig += ":history[" + c.Hist + "]"
+					}
 					run.Violation(hsig,
 						fmt.Sprintf("%s: the call did not return within %.0f s after the cause was in place and the module observed closed (%s at t=%.3fs); guest: %s",
 							c, observed, kind, t, sh.Desc), rp)
@@ -344,6 +364,9 @@ func main() {
 				sig := fmt.Sprintf("%s:%s:%s:%s:%s-cycle", strings.TrimPrefix(out, "bad:"), c.Engine, c.Cause, momentKind(c.Moment), sh.Class)
 				if c.Conc != "" {
 					sig += ":concurrent:" + c.Conc
+				}
+				if c.Hist != "" {
+					sig = fmt.Sprintf("%s:%s:history[%s]", strings.TrimPrefix(out, "bad:"), c.Engine, c.Hist)
 				}
 				run.Violation(sig,
 					fmt.Sprintf("%s: %s (%s); guest: %s", c, out, info, sh.Desc), rp)
@@ -417,14 +440,17 @@ func main() {
 		"product_cases": len(p.cases) - p.prewarm - p.ctxExt, "prewarmed_cache_cases": p.prewarm, "not_applicable": p.na, "grammar_programs_run_dynamically": p.grammar,
 		"ticks_per_guest": nTicks, "hang_watchdog_s": hangAfter.Seconds(), "supervisor_fallback_watchdog_s": caseTimeout.Seconds(), "phase_wall_s": phaseWall,
 		"concurrency_scenarios": concScenarios, "concurrency_causes": concCauses,
-		"phase_cases": map[string]int{"conc": len(p.phases["conc"]), "tail": len(p.phases["tail"]), "deep": len(p.phases["deep"]), "main": len(p.phases["main"])},
+		"phase_cases": map[string]int{"hist": len(p.phases["hist"]), "conc": len(p.phases["conc"]), "tail": len(p.phases["tail"]), "deep": len(p.phases["deep"]), "main": len(p.phases["main"])},
 	}
 	extra := map[string]any{
 		"structural_programs": sProgs, "structural_nodes": sNodes, "structural_edges": sEdges, "structural_check_nodes": sChecks,
 		"structural_wall_s":               float64(int(structWall*100)) / 100,
 		"structural_vs_interpreter_agree": agree, "structural_vs_interpreter_disagree": len(disagree),
 		"dynamic_cases": evals, "hangs": hangs, "exits_within_one_iteration_of_the_flag": oneIter,
-		"cause_fired_at_the_chosen_tick_and_close_observed": armedCases, "deadline_passed_before_the_chosen_tick": earlyDeadline,
+		// The only two numbers that depend on wall-clock: a timer driven cause (1 s ahead) can pass before the chosen
+		// tick when the machine is so loaded that start-up plus four iterations take longer; the case is judged all the
+		// same and lands in the same outcome class. 0 early arrivals on an idle machine.
+		"timing_dependent": map[string]any{"cause_fired_at_the_chosen_tick_and_close_observed": armedCases, "deadline_passed_before_the_chosen_tick": earlyDeadline},
 	}
 	extra["structural_grammar"] = gram
 	sProgs += gram.Programs
